@@ -460,14 +460,24 @@ def r7(ctx):
         texts = [guard_text(g) for g in gs]
         if not any(g[0] == "loop" for g in gs) or not any("read_dir" in t for t in texts):
             continue
+        # break / continue leave their innermost loop only: those of an inner loop (archive members) do not end the round of
+        # the entry loop and are the member loop's business (C19-R1)
+        loops = [g[1] for g in gs if g[0] == "loop"]
+        if x["k"] in ("Break", "Continue") and len(loops) > 1:
+            continue
         n += 1
         last = texts[-1] if texts else ""
+        locs_ = Locals(h)
+        last_chased = last
+        if gs and gs[-1][0] == "if" and gs[-1][1]["k"] != "LetE":
+            pos_, neg_ = guard_atoms([gs[-1]])
+            last_chased = " ".join(render(locs_.chase(a_)) for a_ in pos_ + neg_)
         cls = None
         if x["k"] == "Break" and last.endswith("is Option::None {..}") and "Iterator::next" in last:
             cls = "loop-exhausted"
-        elif x["k"] == "Break" and "self.query.limit" in last and "is_buffered" in last:
-            cls = "limit"
-        elif x["k"] == "Ret" and (last == "(!checked)" or ("Try::branch" in last and "ControlFlow::Break" in last)):
+        elif x["k"] == "Break" and "limit" in last_chased + last and ("is_buffered" in last_chased + last or "found" in last_chased + last):
+            cls = "limit"       # exactness of the stop condition: C06-R2
+        elif x["k"] == "Ret" and ("check_file" in last_chased or ("Try::branch" in last and "ControlFlow::Break" in last)):
             cls = "output-closed"
         ctx.obligation(cls is not None)
         if cls is None:
@@ -477,7 +487,7 @@ def r7(ctx):
                           "followed by their siblings, so rows of the depth window are lost" %
                           (render(x), last, " (archive branch: a directory may carry an archive name)" if inner else ""))
     ctx.covered("ways out of the per-entry loop of visit_dir, each in a reviewed class", n, distinct_keys=["loop-exhausted", "limit", "output-closed"])
-    ctx.floor(n, 8, "exits of the entry loop", VISIT_DIR)
+    ctx.floor(n, 6, "exits of the entry loop", VISIT_DIR)
 
 RULES = [
     ("C01-R1", "depth window: reporting and descent gates on the depth grid", r1),
